@@ -161,6 +161,20 @@ class Chan:
             pass
 
 
+ROGUEDIR = os.path.join(os.path.dirname(os.path.dirname(os.path.abspath(__file__))), "harness", "rogue")
+
+
+def make_rogue_ctx(tlsver):
+    """a server context with a self-signed certificate no client CA knows, and an empty session cache"""
+    ctx = ssl.SSLContext(ssl.PROTOCOL_TLS_SERVER)
+    ctx.load_cert_chain(os.path.join(ROGUEDIR, "rogue.pem"), os.path.join(ROGUEDIR, "rogue.key"))
+    if tlsver == "12":
+        ctx.maximum_version = ssl.TLSVersion.TLSv1_2
+    elif tlsver == "13":
+        ctx.minimum_version = ssl.TLSVersion.TLSv1_3
+    return ctx
+
+
 def make_server_ctx(tlsver):
     ctx = ssl.SSLContext(ssl.PROTOCOL_TLS_SERVER)
     ctx.load_cert_chain(os.path.join(CERTDIR, "server_cert.pem"), os.path.join(CERTDIR, "server_cert.key"))
@@ -498,7 +512,11 @@ class PeerCase:
                     ch.close()
                     return
             if spec.get("tls"):
-                if spec.get("tls_ok", True):
+                if spec.get("cert") == "rogue":
+                    # another endpoint answers on the data port: no resumption, a certificate of an unknown issuer
+                    ok = ch.start_tls(make_rogue_ctx(self.tlsver))
+                    rec["rogue_handshake_completed"] = ok
+                elif spec.get("tls_ok", True):
                     ok = ch.start_tls(st["ctx"])
                 else:
                     ok = self._bad_handshake(ch)
